@@ -279,6 +279,55 @@ def run(ctx):
         if d:
             ctx.failure(f"differs:{final}", f"{final} after history {case['history']}: {d}", case)
         ctx.sample({"history": case["history"], "final": final}, cap=5)
+    # directed histories for init='results': an island that was unsupplied in the previous calculation is re-supplied; branches
+    # with open switches on both sides of the old island boundary (previous results partly NaN)
+    for j in range(ctx.budget(6, 60)):
+        net = pp.create_empty_network()
+        b = [pp.create_bus(net, 20.) for _ in range(7)]
+        pp.create_ext_grid(net, b[0], rng.choice([1.0, 1.02]))
+        km = lambda: rng.choice([1.0, 2.5, 4.0])       # noqa
+        std = "NA2XS2Y 1x240 RM/25 12/20 kV"
+        l0 = pp.create_line(net, b[0], b[1], km(), std)
+        pp.create_line(net, b[1], b[2], km(), std)
+        pp.create_line(net, b[0], b[3], km(), std)
+        pp.create_line(net, b[3], b[4], km(), std)
+        tie = pp.create_line(net, b[2], b[4], km(), std)
+        stub = pp.create_line(net, b[3], b[5], km(), std)
+        stub2 = pp.create_line(net, b[1], b[6], km(), std)
+        side = rng.choice(["from", "to"])
+        for ln in (tie, stub) + ((stub2,) if rng.random() < 0.5 else ()):
+            pp.create_switch(net, int(net.line.at[ln, side + "_bus"]), ln, et="l", closed=False)
+        for x in b[1:5]:
+            pp.create_load(net, x, rng.choice([0.5, 1.0, 2.0]), 0.2)
+        twin = copy.deepcopy(net)
+        case = {"net_json": pp.to_json(net), "history": [[f"line[{l0}].in_service=False", "runpp", "ok"], [f"line[{l0}].in_service=True", "-", "-"]],
+                "final": "init_results"}
+        net.line.at[l0, "in_service"] = False
+        try:
+            with core.quiet():
+                pp.runpp(net, calculate_voltage_angles=True)
+        except Exception:       # noqa
+            continue
+        net.line.at[l0, "in_service"] = True
+        fresh = fresh_copy(pp, twin)
+        case["net_before_final_json"] = pp.to_json(net)
+        try:
+            with core.quiet():
+                pp.runpp(fresh, calculate_voltage_angles=True)
+        except Exception:       # noqa
+            continue
+        ctx.hist("final", "init_results:resupplied-island")
+        ctx.count(case["net_json"] + "resupply", nontrivial=True)
+        try:
+            with core.quiet():
+                pp.runpp(net, init="results", calculate_voltage_angles=True)
+        except Exception as e:       # noqa
+            ctx.failure("raises:init_results", f"runpp(init='results') after re-supplying an island (open line switches at {side} sides, previous "
+                                               f"results partly NaN) raised {type(e).__name__}: {str(e)[:100]}; the fresh copy converged", case)
+            continue
+        d = compare(net, fresh, COLS, 1e-5)
+        if d:
+            ctx.failure("differs:init_results", f"init_results after re-supplying an island: {d}", case)
     ctx.assumptions.append("the fresh copy is a JSON round trip of the element tables with empty result tables and default internal "
                            "state; recycle options are not used (C12's subject); init='results' is only requested when the result "
                            "table is aligned with net.bus (documented precondition)")
